@@ -77,3 +77,8 @@ func vh_C20_L1_api_lock_balance() {
 	}
 	vcover("end")
 }
+
+// C20.L3: timer callbacks reach the observer without the timer's own mutex held, so the
+// lock order association-lock -> timer-mutex used by every handler cannot be inverted
+// (same obligation as vh_C19_L3_retry_law, which checks it inside both callbacks).
+func vh_C20_L3_timer_callbacks_unlocked() { vh_C19_L3_retry_law() }
